@@ -103,11 +103,20 @@ def observe_parse(T, t, data, start, *, with_dump=True, opener=None, call=None):
     """Parse T from `data` at offset `start`; returns the `res` record."""
     stream = opener(data) if opener else io.BytesIO(data)
     stream.seek(start)
+    err = None
     try:
         v = call(T, stream) if call else T.read(stream)
+    except MemoryError:
+        # nothing may be allocated here: the frames of the failed call still hold what exhausted the limit (framework.main)
+        err = ("error", "MemoryError: the call asked for more memory than the harness allows")
     except Exception as e:  # noqa: BLE001 - every outcome is an observation
-        return {"status": classify(e), "exc": f"{type(e).__name__}: {e}"[:200], "v": NONE_V, "pos": 0, "sizes": [],
-                "dump": NO_DUMP, "re": NO_RE}
+        err = (classify(e), f"{type(e).__name__}: {e}"[:200])
+    if err:
+        if err[1].startswith("MemoryError"):
+            import gc
+
+            gc.collect()
+        return {"status": err[0], "exc": err[1], "v": NONE_V, "pos": 0, "sizes": [], "dump": NO_DUMP, "re": NO_RE}
     res = {"status": "ok", "exc": "", "v": project(v, t), "pos": stream.tell(), "sizes": sizes_of(v, T),
            "dump": NO_DUMP, "re": NO_RE}
     if with_dump:
